@@ -188,6 +188,24 @@ let handle kind a =
         dec_of_n h.h_seq; dec_of_n h.h_beg; fo h.h_end dec_of_n; dec_of_n h.h_meta; dec_of_n h.h_skip;
         fl "," h.h_names (fun nm -> if nm = [] then "." else hex_of_bytes nm) ] in
       Some (cres_s (fun i -> "Ok:" ^ fo i.ti_header hdr ^ " " ^ fl "/" i.ti_refs tref ^ " " ^ fo i.ti_unplaced dec_of_n) r)
+  | "csir" ->
+      (* bgzf-file cap script: csi read_index stacked on the BGZF block reader *)
+      let cap = nat_of_int (int_of_string a.(1)) in
+      let (r, _) = run_csi inflate cap (mk a.(0) a.(2)) in
+      let fl sep l f = if l = [] then "_" else String.concat sep (List.map f l) in
+      let fo o f = match o with None -> "-" | Some x -> f x in
+      let pairs cs = fl "," cs (fun (x, y) -> dec_of_n x ^ ":" ^ dec_of_n y) in
+      let meta mo = fo mo (fun m ->
+        String.concat ":" [dec_of_n m.m_beg; dec_of_n m.m_end; dec_of_n m.m_mapped; dec_of_n m.m_unmapped]) in
+      let bins bs = fl ";" bs (fun (id, cs) -> dec_of_n id ^ "=" ^ pairs cs) in
+      let loffs ls = fl "," ls (fun (id, lo) -> dec_of_n id ^ ":" ^ dec_of_n lo) in
+      let cref r = String.concat "|" [bins r.cr_bins; loffs r.cr_loffs; meta r.cr_meta] in
+      let hdr h = String.concat ":" [
+        (match h.h_format with FGeneric false -> "g" | FGeneric true -> "b" | FSam -> "s" | FVcf -> "v");
+        dec_of_n h.h_seq; dec_of_n h.h_beg; fo h.h_end dec_of_n; dec_of_n h.h_meta; dec_of_n h.h_skip;
+        fl "," h.h_names (fun nm -> if nm = [] then "." else hex_of_bytes nm) ] in
+      Some (cres_s (fun i -> "Ok:" ^ dec_of_n i.ci_ms ^ ":" ^ string_of_int (int_of_nat i.ci_depth) ^ " "
+              ^ fo i.ci_header hdr ^ " " ^ fl "/" i.ci_refs cref ^ " " ^ fo i.ci_unplaced dec_of_n) r)
   | "csih" ->
       (* data cap script chunk *)
       let cap = nat_of_int (int_of_string a.(1)) in
